@@ -14,7 +14,7 @@ import (
 func (s *S) leafFns(budget int) {
 	c, g := s.c, s.g
 	var ids []uint64
-	for i := 0; i < 34*budget; i++ {
+	for i := 0; i < 26*budget; i++ {
 		ids = append(ids, g.cell(g.level()))
 	}
 	ids = append(ids, firstLeaf, lastLeaf, faceCell(0), faceCell(5), oLeafMax(faceCell(2)), oLeafMin(faceCell(3)))
@@ -120,7 +120,7 @@ func (s *S) leafFns(budget int) {
 // one cell"; [T] on everything, also repeated ids.
 func (s *S) siblings(budget int) {
 	c, g := s.c, s.g
-	for k := 0; k < 320*budget; k++ {
+	for k := 0; k < 240*budget; k++ {
 		var q [4]uint64
 		class := ""
 		switch g.n(12) {
